@@ -1,4 +1,5 @@
 import json
+import os
 from collections import OrderedDict
 
 import click
@@ -61,7 +62,7 @@ def print_json(targets, graph):
             ]
         )
 
-    print(json.dumps(obj, indent=4))
+    print(json.dumps(obj, indent=4, default=os.fspath))
 
 
 FORMATS = {
